@@ -99,7 +99,7 @@ Definition simple_procb (gaddr : string -> option Z) (p : proc) : bool :=
   forallb (fun x => match gaddr x with None => true | Some _ => false end) (map formal_nm (formals p) ++ map local_decl_name (locals p)).
 
 Definition numbers_okb (maxframe : Z) (p : proc) (L : playout) : bool :=
-  (0 <? pl_size L) && (pl_size L <=? maxframe) && (first_temp p <=? pl_nslots L) && (0 <=? pl_og L) &&
+  (0 <=? pl_size L) && (pl_size L <=? maxframe) && (first_temp p <=? pl_nslots L) && (0 <=? pl_og L) &&
   (pl_nslots L + pl_og L <=? pl_size L).
 
 Definition maxframe_of (es : list pent) : Z := fold_right (fun e m => Z.max (pl_size (pe_lay e)) m) 2 es.
@@ -199,7 +199,7 @@ Lemma numbers_okb_sound maxframe p L : numbers_okb maxframe p L = true -> number
 Proof.
   unfold numbers_okb, numbers_ok. intros H. apply andb_prop in H. destruct H as [H H5]. apply andb_prop in H. destruct H as [H H4].
   apply andb_prop in H. destruct H as [H H3]. apply andb_prop in H. destruct H as [H1 H2].
-  apply Z.ltb_lt in H1. apply Z.leb_le in H2. apply Z.leb_le in H3. apply Z.leb_le in H4. apply Z.leb_le in H5. lia.
+  apply Z.leb_le in H1. apply Z.leb_le in H2. apply Z.leb_le in H3. apply Z.leb_le in H4. apply Z.leb_le in H5. lia.
 Qed.
 
 Lemma find_proc_name x : forall ps pr, find_proc x ps = Some pr -> pname pr = x.
